@@ -144,9 +144,11 @@ def run_case(case):
 
 def cases(tier):
     out = []
+    # the last boxes of d=2,3 are chosen so that a bound of one dimension coincides with an interior dyadic coordinate of another
     boxes = {1: [([0.0], [1.0]), ([-1.0], [3.0]), ([-3.0], [6.0])],
-             2: [([0.0, 0.0], [1.0, 1.0]), ([-1.0, -1.0], [3.0, 3.0]), ([-3.0, 2.0], [6.0, 4.0])],
-             3: [([0.0, 0.0, 0.0], [1.0, 1.0, 1.0]), ([-1.0, -1.0, -1.0], [3.0, 3.0, 3.0]), ([-3.0, 2.0, 0.0], [6.0, 4.0, 1.0])]}
+             2: [([0.0, 0.0], [1.0, 1.0]), ([-1.0, -1.0], [3.0, 3.0]), ([-3.0, 2.0], [6.0, 4.0]), ([-1.0, 0.0], [1.0, 1.0]), ([0.0, 1.0], [2.0, 3.0])],
+             3: [([0.0, 0.0, 0.0], [1.0, 1.0, 1.0]), ([-1.0, -1.0, -1.0], [3.0, 3.0, 3.0]), ([-3.0, 2.0, 0.0], [6.0, 4.0, 1.0]),
+                 ([-2.0, -1.0, 0.0], [2.0, 3.0, 1.0])]}
     maxl = {1: 5, 2: 4, 3: 3} if tier != "quick" else {1: 5, 2: 4, 3: 3}
     for d in (1, 2, 3):
         for lmin in range(1, maxl[d] + 1):
@@ -181,5 +183,5 @@ def main(ctx):
              "hierarchical hats of the sparse-grid space are carried as components of vector-valued functions (evaluations = number of "
              "basis functions decided); non-trivial = more than one sparse grid point",
         assumptions=["TrapezoidalGrid (the nested grid family of the statement), Integration operation",
-                     "float-exact boxes [0,1]^d, [-1,3]^d, [-3,6]x[2,4]x[0,1]; L_d = 5/4/3 for d=1/2/3 (thorough adds lmax 5 (d=2), 4 (d=3), d=4)",
+                     "float-exact boxes [0,1]^d, [-1,3]^d, [-3,6]x[2,4]x[0,1], and boxes whose bounds coincide with interior grid coordinates of other dimensions ([-1,1]x[0,1], [0,2]x[1,3], [-2,2]x[-1,3]x[0,1]); L_d = 5/4/3 for d=1/2/3 (thorough adds lmax 5 (d=2), 4 (d=3), d=4)",
                      "tolerance 1e-12"])
